@@ -157,6 +157,18 @@ func (f Fetcher) Join(parts ...string) string  { return fmt.Sprintf("joined-%d-%
 func (f Fetcher) Args(a int) int               { return a + f.N }
 func (f *Fetcher) Fetch2() (int, string, bool) { return f.N, "second", true }
 
+// exported fields promoted through an embedded struct of an UNEXPORTED type (by value and by pointer)
+type inner struct {
+	ID      int
+	Created string
+}
+type inner2 struct{ By string }
+type Outer struct {
+	inner
+	*inner2
+	Extra string
+}
+
 func handObjects() []interface{} {
 	b := Base{ID: 7, Title: "bt", hid: "h"}
 	top := Top{Mid: Mid{Base: b, Level: 3}, Name: "top", Title: "tt"}
@@ -187,6 +199,8 @@ func handObjects() []interface{} {
 		WithIface{Desc: Base{ID: 3, Title: "wi"}, K: 1}, &WithIface{Desc: &Base{ID: 4}, K: 2},
 		Fetcher{N: 2}, &Fetcher{N: 3},
 		WithIface{K: 9}, &WithIface{K: 10},
+		Outer{inner: inner{ID: 5, Created: "then"}, inner2: &inner2{By: "me"}, Extra: "ox"}, &Outer{inner: inner{ID: 6}, Extra: "oy"},
+		map[string]interface{}{"1.1": "a", "1.10": "b", "1234": "c", "01234": "d", "1e3": "e", "1000": "f", "A": "g"}, map[string]string{"1.10": "sb", "01": "s1", "1": "s2"},
 		Shadow{EmbV: EmbV{Value: 3, Sum: "field-sum", Scale: 1.5}, K: 1}, &Shadow{EmbV: EmbV{Value: 4, Sum: "field-sum-2"}, K: 2},
 	}
 }
@@ -194,7 +208,8 @@ func handObjects() []interface{} {
 var c20Names = []string{"A", "B", "C", "X", "Y", "ID", "Title", "Level", "Name", "Extra", "hid", "v",
 	"Describe", "Bump", "Hello", "Sum", "Scale", "Nothing", "Pair", "Value", "Double", "Base", "Mid", "name", "nil", "zzz", "F0", "F1", "F2", "F3",
 	"At", "Source", "Mail", "Lang", "Pages", "Draft", "Stamp", "Tracking", "Record", "Author",
-	"K", "N", "Desc", "Fetch", "Fetch2", "Join", "Args"}
+	"K", "N", "Desc", "Fetch", "Fetch2", "Join", "Args", "Created", "By",
+	"1.1", "1.10", "1234", "01234", "1e3", "1000", "01", "1"}
 
 var genFieldNames = []string{"A", "B", "C", "X", "F0", "F1", "F2", "F3"}
 var genFieldTypes = []reflect.Type{reflect.TypeOf(0), reflect.TypeOf(""), reflect.TypeOf(true), reflect.TypeOf(1.5), reflect.TypeOf([]int(nil))}
@@ -466,6 +481,20 @@ func jsonOf(v interface{}) string {
 	return string(b)
 }
 
+// c20Norm: a name that starts with a digit cannot be written after a dot. On maps it is looked up by subscript,
+// elsewhere through the engine's lookup function directly (never through a rendered template).
+func c20Norm(op c20Op, obj interface{}) c20Op {
+	if op.Name != "" && op.Name[0] >= '0' && op.Name[0] <= '9' {
+		op.Def, op.Pair, op.Sand = false, false, false
+		if obj != nil && reflect.TypeOf(obj).Kind() == reflect.Map {
+			op.Item = true
+		} else {
+			op.Render, op.Item = false, false
+		}
+	}
+	return op
+}
+
 var c20AmbCache [][2]int
 
 // c20AmbPairs lists (hand object index, name index) pairs that are the stated don't-care: a method declared on
@@ -523,6 +552,7 @@ func (propC20) Run(scI interface{}) *Outcome {
 	for t := 0; t < nt; t++ {
 		tpls[t] = make([]*twig.Template, len(sc.Tasks[t]))
 		for i, op := range sc.Tasks[t] {
+			op = c20Norm(op, c20Object(hands[t], op.Obj))
 			if op.Render {
 				acc := "x." + op.Name
 				o := c20Object(hands[t], op.Obj)
@@ -587,6 +617,7 @@ func (propC20) Run(scI interface{}) *Outcome {
 					continue
 				}
 				obj := c20Object(hand, op.Obj)
+				op = c20Norm(op, obj)
 				isMap := obj != nil && reflect.TypeOf(obj).Kind() == reflect.Map
 				if op.Item && !isMap {
 					op.Item = false // the subscript form is only specified for maps
